@@ -20,5 +20,10 @@ for o in C11.OBLIGATIONS:
     if o["id"].startswith("C11.cbc_roundtrip.L") or o["id"].startswith("C11.tls13_roundtrip.L"):
         if o.get("tier", "quick") == "quick" and o["id"].endswith(("L0_1", "L16_17", "L10_11")):
             d = copy.deepcopy(o); d["id"] = o["id"].replace("C11.", "C08.record_"); OBLIGATIONS.append(d)
+for nm, en, ti in (("tls13_expand_label", "h_expand_label", "tls13_hkdf_expand_label builds the RFC 8446 HkdfLabel (length, \"tls13 \" + label, context) and expands under the secret"),
+                   ("tls13_derive_secret", "h_derive_secret", "tls13_derive_secret = Expand-Label(secret, label, Hash(transcript), Hash.length)")):
+    OBLIGATIONS.append({"id": "C08." + nm, "harness": "harness/C08/tls13label.c", "entry": en, "units": ["tls13.c", "tls.c"],
+                        "remove": {"tls.c": ["tls_record_recv", "tls_record_send"]}, "unwind": 90, "timeout": 600,
+                        "title": ti, "bounds": "label of 12 / 7 characters, context 5 / 32 bytes, L in {12, 16, 32}", "stubs": ["hkdf_expand: recorder", "digest_finish: arbitrary transcript hash"]})
 NOTE = ("C08 is claimed for the per-endpoint building blocks only: PRF structure, record protection round trip (from C11), full-size fragment acceptance, "
         "in-order reassembly of short socket reads. NOT decided: the handshake drivers (not encodable, see DESIGN.md), two live endpoints, interleavings.")
